@@ -25,6 +25,16 @@ CHECKS = {
             "Same executions as C01: the multiset of submitted jobs (call path x phase x chunk) must equal the multiset the reference interpreter denotes, no job key is submitted twice, no metadata directory receives two submissions, and calls that are disabled or map over nothing execute no job.",
             "fork naming is treated as an implementation detail (jobs are matched per call path and phase)",
             "DESIGN.md 4/C03"),
+    "C04": ("exploration",
+            "bounded-exhaustive file-flow program family x VDR mode x annotation x deviation-bounded schedules (job timing, deferral of the VDR goroutines) on the real runtime with real files",
+            "Every vector of the file-flow family (which output type carries the file incl. projections through arrays/typed maps of structs, strings and untyped maps; split producer; sub-pipeline boundaries; mapped producer/consumer; late second consumer; stage/pipeline retain; returned by the top-level pipeline; pipestance below a symlinked directory with physically reported paths) x {call volatile, none, strict, false} x VDR {rolling, post, strict}: model jobs write real files and every consumer verifies each file named in its arguments at the moment it runs; at completion files named by top-level outputs and retains must be intact. Schedules: default, each job held/start-only, each VDR goroutine deferred 0/1/3 loop iterations.",
+            "VDR goroutine bodies are treated as atomic w.r.t. the scheduler loop (deferred as a whole); stages follow Martian's contract for file outputs",
+            "DESIGN.md 4/C04"),
+    "C14": ("exploration",
+            "same executions as C04; reclamation and accounting oracles against a harness-measured removal ledger",
+            "On every completed run of the C04 exploration: no per-job tmp file and no chunk-level file of a splitting stage survives; no file written by a volatile stage (strict mode: any stage) survives unless named by a top-level output or retain; every path listed in any _vdrkill is gone; the pipestance-level report is bounded below by the regular files/bytes VDR actually removed (ledger measured by the rewritten os.RemoveAll hook immediately before each removal) and above by files+directories, and lists every removed files/ path; no file-system effect leaves the pipestance directory.",
+            "which directory nodes a kill report counts is implementation-defined, so the count/byte check is a two-sided bound (regular files <= report <= all entries); restart between partial and final clean-up is covered by C05's crash enumeration only for non-VDR shapes",
+            "DESIGN.md 4/C14"),
     "C05": ("fault_enumeration",
             "exhaustive crash-point enumeration over the numbered file-system effect history of the real runtime, restart through the real re-attach path",
             "For 12 pipeline shapes the uninterrupted run on the real runtime gives a history of N numbered file-system effects (mrp's, via mechanically rewritten os.* calls, and the model jobs'); for EVERY n the process is made to die at effect n (plus torn variants of plain writes), the stale lock is removed and a second incarnation goes through ReattachToPipestance/Reset/RestartLocalJobs/LoadMetadata and the run loop; it must complete with the reference outputs and must not re-execute jobs whose completion marker had been written. Thorough adds a second crash at every effect of the restart for two shapes.",
